@@ -101,7 +101,7 @@ def rule_G2(ctx: Ctx) -> None:
             elif name in IN_PLACE_EXCEPTION:
                 # in-place by default, but under inplace=False the loop must run over the copy: the iterated name must be
                 # the result variable whose definitions are {the input (in-place branch), copy.deepcopy(input)}
-                defs = X.assignments_to(f.node, base.id) if isinstance(base, ast.Name) else []
+                defs = [a for d in (X.assignments_to(f.node, base.id) if isinstance(base, ast.Name) else []) for a in X.alternatives(d)]
                 via_copy = isinstance(base, ast.Name) and base.id != ds_param and any(X.is_fresh(d, f.node) for d in defs)
                 ctx.judge(f, via_copy, {**slot, "exception": IN_PLACE_EXCEPTION[name], "iterates_result_variable_with_copy_branch": via_copy},
                           "mazes are mutated only in the dataset that is returned (the input itself only under inplace=True)",
